@@ -204,6 +204,24 @@ pub fn subs() -> Vec<Box<dyn AnySub>> {
             check: check_large,
         }),
         Box::new(Sub { name: "direct", quick: 40_000, thorough: 600_000, strat: direct, check: check_direct }),
+        Box::new(EnumSub {
+            name: "timestamps",
+            exhaustive: false,
+            list: |t| {
+                let mut v = super::c16::field_list(t);
+                v.extend(super::c16::separator_list(t));
+                v
+            },
+            check: check_ts_total,
+        }),
+        Box::new(Sub { name: "timestamps-mutated", quick: 10_000, thorough: 200_000, strat: super::c16::mutated, check: check_ts_total }),
+        Box::new(Sub {
+            name: "tower-future-service-provider",
+            quick: 5_000,
+            thorough: 60_000,
+            strat: || plan(PlanOpts { plain_spelling: true, ..PlanOpts::default() }),
+            check: check_future_service,
+        }),
         Box::new(EnumSub { name: "secret-capacities", exhaustive: true, list: super::c06::cap_list, check: check_cap_total }),
         Box::new(EnumSub { name: "direct-bytes", exhaustive: true, list: |_| (0u16..256).map(|b| b as u8).collect(), check: check_byte }),
     ]
@@ -562,5 +580,54 @@ pub fn check_cap_total(c: &super::c06::Cap, cc: &mut CaseCtx) -> CheckResult {
             cc.nontrivial(digest_of(&[c.secret.as_bytes(), &c.capacity.to_le_bytes()]));
             Ok(())
         }
+    }
+}
+
+/// Timestamp strings (both carriers): whatever the verdict, parsing them must not panic.
+pub fn check_ts_total(tc: &super::c16::TsCase, cc: &mut CaseCtx) -> CheckResult {
+    let mut inner = CaseCtx::default();
+    match super::c16::check_ts(tc, &mut inner) {
+        Err(f) if f.sig.starts_with("panic") => Err(f),
+        _ => {
+            cc.class("timestamp-string");
+            cc.class_if(!tc.text.is_ascii(), "non-ascii-timestamp");
+            cc.nontrivial(digest_of(&[tc.text.as_bytes(), &[tc.query_carrier as u8], b"ts"]));
+            Ok(())
+        }
+    }
+}
+
+/// A stock tower provider that insists on the Service contract (FutureService panics when `call` comes
+/// before `poll_ready`): validation must not make it panic.
+pub fn check_future_service(p: &Plan, cc: &mut CaseCtx) -> CheckResult {
+    use scratchstack_aws_signature::{sigv4_validate_request, GetSigningKeyRequest, GetSigningKeyResponse, SignatureOptions, NO_ADDITIONAL_SIGNED_HEADERS};
+    let Ok(built) = p.build() else { return Ok(()) };
+    let mut case = built.case.clone();
+    case.cfg.reqs = Reqs::default();
+    let Ok(http_req) = exec::build_http(&case.req) else { return Ok(()) };
+    let Some(now) = exec::to_datetime(case.cfg.now) else { return Ok(()) };
+    let secret = p.entry.secret.clone();
+    let lookup = move |req: GetSigningKeyRequest| {
+        let secret = secret.clone();
+        async move {
+            let k = KSecretKey::<44>::from_str(&secret).map_err(|_| Box::new(exec::ForeignError("secret".into())) as tower::BoxError)?;
+            GetSigningKeyResponse::builder().signing_key(k.to_ksigning(req.request_date(), req.region(), req.service())).build().map_err(|e| Box::new(exec::ForeignError(e.to_string())) as tower::BoxError)
+        }
+    };
+    let inner = tower::service_fn(lookup);
+    let mut svc = tower::util::future_service(Box::pin(async move { Ok::<_, tower::BoxError>(inner) }));
+    let opts = SignatureOptions { s3: case.cfg.s3, url_encode_form: case.cfg.fold };
+    let r = std::panic::catch_unwind(std::panic::AssertUnwindSafe(|| {
+        exec::block_on(sigv4_validate_request(http_req, &case.cfg.region, &case.cfg.service, &mut svc, now, &NO_ADDITIONAL_SIGNED_HEADERS, opts), 10_000)
+    }));
+    cc.class("future-service");
+    cc.nontrivial(digest_of(&[&case.req.digest().to_le_bytes(), b"fs"]));
+    match r {
+        Err(pn) => {
+            let loc = exec::take_panic_location().unwrap_or_default();
+            Err(Failure::new(&format!("panic:{}", loc), format!("validation with a tower FutureService provider panicked: {} @ {}", exec::panic_message(pn), loc)))
+        }
+        Ok((None, _)) => Err(Failure::new("hang", "validation did not complete")),
+        Ok(_) => Ok(()),
     }
 }
